@@ -73,8 +73,9 @@ class FakeReader:
         self.pending.insert(0, line)
 
 
-def parse(lines, **settings):
-    """Parse the statement list with the real FortranSourceFile (reader stubbed)."""
+def parse(lines, post=None, **settings):
+    """Parse the statement list with the real FortranSourceFile (reader stubbed).  `post(file)` runs inside the same
+    patched context and its result is returned."""
     import ford.sourceform as sf
     import ford.utils as fu
     from ford.settings import ProjectSettings
@@ -90,7 +91,8 @@ def parse(lines, **settings):
         with patch.patched(sf, fu, extra=extra):
             buf = io.StringIO()
             with contextlib.redirect_stdout(buf):
-                return sf.FortranSourceFile(p, ProjectSettings(dbg=False, **settings))
+                f = sf.FortranSourceFile(p, ProjectSettings(dbg=False, **settings))
+                return post(f) if post is not None else f
     finally:
         try:
             os.remove(p)
